@@ -24,6 +24,9 @@ def universe_hash():
 def plan(tier, seed, complete=False):
     items, zinfo = PL.plan_docs(tier, seed, complete, quick={"Z1": 550, "Z3": 350, "Z4": 200, "Z7": 600, "Z11": 350, "Z12": 450}, z1_all=False, limit=LIMIT, zones=("Z1", "Z3", "Z4", "Z7", "Z11", "Z12"), force_b=True, check="C09",
                                    ranges={"Z1": [(0, 10194), (20388, 25485)]})
+    if not PL.only_group_b():
+        items = items + [f"T:{i}" for i in range(len(TAB_DOCS))]
+        zinfo["T (enumerated tab-after-marker documents)"] = {"universe": len(TAB_DOCS), "run": len(TAB_DOCS)}
     return {
         "items": items, "zones": zinfo, "exhaustive": False,
         "rule": "documents of the frozen universes x {default rules, one fix-capable rule alone, one pair of fix-capable rules} (rule choice is a function of the "
@@ -33,6 +36,29 @@ def plan(tier, seed, complete=False):
 
 witness_item = PL.witness_item
 replay_item = PL.replay_item
+
+
+def _tab_docs():
+    """Enumerated family T: a tab right after every kind of block marker, where a token rule has to predict
+    what the line rule MD010 will turn the tab into (the fix levels only cooperate if it predicts right)."""
+    out = []
+    gaps = ["\t", "\t\t", " \t", "\t ", "  \t"]
+    for h in range(1, 7):
+        for gap in gaps:
+            for lead in ("", " ", "  ", "   "):
+                for tail in ("", " #", "\t#"):
+                    out.append(f"# Title\n\n{lead}{'#' * h}{gap}Section{tail}\n\nSome text.\n")
+    for marker in ("-", "*", "1.", "10."):
+        for gap in gaps:
+            out.append(f"{marker}{gap}item\n{marker}{gap}two\n")
+            out.append(f"{marker} outer\n  {marker}{gap}inner\n")
+    for gap in gaps:
+        out.append(f">{gap}text\n>{gap}more\n")
+        out.append(f"text{gap}\nmore\n")
+    return out
+
+
+TAB_DOCS = _tab_docs()
 
 
 def configs_for(idx, fixr):
@@ -52,7 +78,10 @@ def run_items(items, job):
     fixset = {r.upper() for r in app.fix_capable()}
     R = PL.Result()
     for it in items:
-        key, doc = PL.item_doc(it)
+        if isinstance(it, str) and it.startswith("T:"):
+            key, doc = it, TAB_DOCS[int(it.split(":")[1])]
+        else:
+            key, doc = PL.item_doc(it)
         R.evals += 1
         if doc == "":
             R.skip("empty-document")
